@@ -92,11 +92,11 @@ HIsConsistent(s) == Consistent(HAllowed(s), HOvByName(s.ov))
 
 HOptFields == {"unsupported", "minifySyntax", "minifyIdents"}
 \* config.Options as far as the caches are concerned (validateFeatures + the minify flags)
-HOpt(s) == [unsupported  |-> Features \ HAllowed(s),
+HUnsupTab == [t \in HTargets |-> [o \in HOverrides |-> Features \ HAllowedTab[t][o]]]      \* tabulated once
+HOpt(s) == [unsupported  |-> HUnsupTab[s.t][s.ov],
            minifySyntax |-> s.mi # "off",
            minifyIdents |-> s.mi = "all"]
-HOptTab == [s \in HSteps |-> HOpt(s)]      \* tabulated once
-HProj(s, fields) == [f \in fields |-> HOptTab[s][f]]
+HProj(s, fields) == [f \in fields |-> HOpt(s)[f]]
 
 HCacheNames == {"runtime", "globals"}
 HRelevant(c) == IF c = "runtime" THEN HOptFields ELSE {}
@@ -232,23 +232,25 @@ HVariants(s) == {[s EXCEPT !.mi = m] : m \in HMinify \ {s.mi}} \cup
                {x \in {[s EXCEPT !.ov = o] : o \in HOverrides \ {s.ov}} : HIsConsistent(x)}
 \* per seed only some skeleton steps get their variants (every override and minify mode is used)
 HVarBase == {s \in HSkelSet : (HTIdx(s.t) + Seed) % 3 = 0}
-HGenFollows(h, s) ==
-  CASE Len(h) = 0 -> s \in HSkelSet \cup UNION {HVariants(b) : b \in HVarBase}
+HVarSet == UNION {HVariants(b) : b \in HVarBase}
+\* the steps that may follow history h (a small set: the action does not scan HSteps)
+HGenCand(h) ==
+  CASE Len(h) = 0 -> HSkelSet \cup HVarSet
     [] Len(h) = 1 -> IF h[1] \in HSkelSet
-                     THEN s \in HSkelSet \/ (h[1] \in HVarBase /\ s \in HVariants(h[1]))
-                     ELSE \E b \in HVarBase : h[1] \in HVariants(b) /\ s = b
-    [] OTHER      -> /\ h[1] \in HSkelSet /\ h[2] \in HSkelSet /\ s \in HSkelSet
-                     /\ (Seed * 7919 + Hash(h[1]) * 31 + Hash(h[2]) * 17 + Hash(s)) % Fan3 = 0
+                     THEN HSkelSet \cup (IF h[1] \in HVarBase THEN HVariants(h[1]) ELSE {})
+                     ELSE {b \in HVarBase : h[1] \in HVariants(b)}
+    [] OTHER      -> IF h[1] \in HSkelSet /\ h[2] \in HSkelSet
+                     THEN {x \in HSkelSet : (Seed * 7919 + Hash(h[1]) * 31 + Hash(h[2]) * 17 + Hash(x)) % Fan3 = 0}
+                     ELSE {}
 
 HBuild(s) ==
   /\ u.n < MaxBuilds
   /\ HIsConsistent(s)
-  /\ Gen => HGenFollows(u.hist, s)
   /\ u' = [rt   |-> [c \in HCacheNames |-> HFilled(c, s)],
            last |-> [s |-> s, served |-> [c \in HCacheNames |-> HServed(c, s)]],
            hist |-> IF Gen THEN Append(u.hist, s) ELSE <<>>,
            n    |-> u.n + 1]
-HNext == \E s \in HSteps : HBuild(s)
+HNext == \E s \in (IF Gen THEN HGenCand(u.hist) ELSE HSteps) : HBuild(s)
 
 -----------------------------------------------------------------------------
 (* what TLC checks                                                           *)
@@ -256,7 +258,7 @@ HNext == \E s \in HSteps : HBuild(s)
 HTypeOK ==
   /\ u.n \in 0..MaxBuilds
   /\ \A c \in HCacheNames : \A e \in u.rt[c] : DOMAIN e.k = HCompared(c) /\ DOMAIN e.v = HRelevant(c)
-  /\ u.n > 0 => u.last.s \in HSteps
+  /\ u.n > 0 => u.last.s.t \in HTargets /\ u.last.s.mi \in HMinify /\ u.last.s.ov \in HOverrides
 
 \* every cache serves what a fresh process computes from the build's own options
 HistoryIndependent ==
@@ -280,7 +282,7 @@ HStepJson(s) == [target  |-> IF s.t \in HESNames THEN s.t ELSE "",
 \* non-trivial history: an earlier build allows a feature of the runtime source that the last
 \* build does not (a cache that forgot the target would leak it), or differs in a minify flag
 HLeaky(h) == \E i \in 1..(Len(h) - 1) : (HRuntimeUses \cap HAllowed(h[i])) \ HAllowed(h[Len(h)]) # {}
-HDiffers(h) == \E i \in 1..(Len(h) - 1) : HOptTab[h[i]] # HOptTab[h[Len(h)]]
+HDiffers(h) == \E i \in 1..(Len(h) - 1) : HOpt(h[i]) # HOpt(h[Len(h)])
 HExportProgs(dummy) ==
   /\ PrintT(<<"CASE", ToJson([kind |-> "helpers", helpers |-> HRuntimeHelpers,
                               uses |-> [h \in HRuntimeHelpers |-> HelperUses(h)]])>>)
